@@ -104,9 +104,12 @@ def x_decode(ctx, case):
     if exp_err is None and expected2 is not None:
         box = [list(parts)]
         lazy = Content(_ct(charset), lambda: list(box[0]))
-        first = lazy.as_text()
-        box[0] = list(parts) + list(parts)
-        second, third = lazy.as_text(), "".join(lazy.iter_text())
+        try:
+            first = lazy.as_text()
+            box[0] = list(parts) + list(parts)
+            second, third = lazy.as_text(), "".join(lazy.iter_text())
+        except UnicodeError as e:
+            first = second = third = "raised %r" % (e,)
         # a subclass that overrides iter_bytes() (here: it serialises its source twice over): its text is the text
         # of the bytes IT yields
         class Twice(Content):
@@ -114,7 +117,10 @@ def x_decode(ctx, case):
                 yield from super().iter_bytes()
                 yield from super().iter_bytes()
         sub = Twice(_ct(charset), lambda: list(parts))
-        sub_text, sub_iter = sub.as_text(), "".join(sub.iter_text())
+        try:
+            sub_text, sub_iter = sub.as_text(), "".join(sub.iter_text())
+        except UnicodeError as e:
+            sub_text = sub_iter = "raised %r" % (e,)
         ctx.check(sub_text == expected2 and sub_iter == expected2 and b"".join(sub.iter_bytes()) == data + data,
                   "decode.as_text==whole.decode",
                   lambda: {"a Content subclass overriding iter_bytes": True, "as_text()": sub_text, "iter_text": sub_iter,
